@@ -91,6 +91,18 @@ class TrackMachine(ohist.Machine):
             return specs.build_item(other, good_track(other, n, k), {"format": 1})
         raise ValueError(kind)
 
+    def _other_block(self):
+        ns = specs.lib()
+        g = gen.geom()
+        if self.t == R.T_DATA3D:
+            return ns.d3.Data3D(100, self.n + 2, g["vol"], g["rot"], g["trans"])
+        return ns.f3.ForceTorque3D(100, self.n + 2, g["vol"], g["rot"], g["trans"])
+
+    def _other_track(self, k):
+        sp = good_track(self.t, self.n + 2, 50 + k)
+        sp["label"] = f"other{k}"
+        return specs.build_item(self.t, sp, self.base())
+
     def add(self, b, x, channel=None):
         if self.t == R.T_EMG:
             return b.addSignal(x) if channel is None else b.addSignal(x, channel=channel)
@@ -142,7 +154,11 @@ class TrackMachine(ohist.Machine):
                     ("assign_tuple",), ("assign_gen_bad",),
                     ("assign_noniter", "none"), ("assign_noniter", "int"), ("assign_noniter", "track"),
                     ("assign_self", "same"), ("assign_self", "copy"), ("assign_self", "reversed"), ("assign_self", "generator"),
-                    ("assign_self", "plus-bad")]
+                    ("assign_self", "plus-bad"),
+                    # a list obtained from the getter EARLIER, assigned back after something else was assigned in between
+                    ("save",), ("assign_saved",),
+                    # a second block with another frame count: its (empty) list is assigned here, then it grows
+                    ("assign_from_other",), ("other_add",)]
         return out
 
     def describe(self, op):
@@ -177,6 +193,47 @@ class TrackMachine(ohist.Machine):
                 if err is None:
                     raise self.V("wrong-element-accepted", f"add({op[1]}) accepted; block now {self._safe_labels(b)}", op[1])
                 self._unchanged(b, before, enc_before, f"refused add({op[1]})")
+        elif kind == "save":
+            b.__dict__["_verif_saved"] = b.tracks           # the caller keeps what the getter returned
+            return b, model
+        elif kind == "assign_saved":
+            saved = b.__dict__.get("_verif_saved")
+            if saved is None:
+                return b, model
+            expect = [x.label for x in saved]               # what the caller's list holds right now
+            ok_len = all((x.nFrames if hasattr(x, "nFrames") else -1) == self.n for x in saved)
+            try:
+                b.tracks = saved
+            except Exception as e:  # noqa: BLE001
+                err = e
+            if err is not None:
+                raise self.V("valid-list-refused", f"tracks = <list saved earlier, holding {expect}>: {type(err).__name__}: {err}", "saved")
+            got = self.labels(b)
+            if ok_len and got != expect:
+                raise self.V("assignment-not-exact", f"tracks = <list saved earlier, holding {expect}>: block now holds {got}", "saved")
+            model = got
+        elif kind == "assign_from_other":
+            other = b.__dict__.setdefault("_verif_other", self._other_block())
+            src = other.tracks
+            expect = [x.label for x in src]
+            try:
+                b.tracks = src
+            except Exception as e:  # noqa: BLE001
+                err = e
+            if expect:   # the other block's tracks have another length: all must be refused
+                if err is None:
+                    raise self.V("invalid-list-accepted", f"tracks = <tracks of a block with {self.n + 2} frames> accepted", "other-block")
+                self._unchanged(b, before, enc_before, "refused tracks = other block's tracks")
+            else:
+                if err is not None:
+                    raise self.V("valid-list-refused", f"tracks = <empty list of another block>: {type(err).__name__}: {err}", "other-block")
+                model = []
+        elif kind == "other_add":
+            other = b.__dict__.setdefault("_verif_other", self._other_block())
+            if len(other.tracks) < 2:
+                other.add_track(self._other_track(len(other.tracks)))   # valid for the OTHER block only
+            # nothing was asked of this block: it must be what it was
+            self._unchanged(b, before, enc_before, "add_track on ANOTHER block (whose list had been assigned here)")
         elif kind == "assign_self":
             # the value is derived from the block's own current list
             cur = b.tracks
@@ -276,7 +333,11 @@ class TrackMachine(ohist.Machine):
     def canon(self, b, model):
         # all tracks inside are valid and pairwise distinct; the block's future only depends on how
         # many there are (labels of fresh tracks differ from history to history)
-        return len(model)
+        saved = b.__dict__.get("_verif_saved")
+        other = b.__dict__.get("_verif_other")
+        saved_state = None if saved is None else ("current" if saved is b.tracks else ("stale", len(saved)))
+        other_state = None if other is None else (len(other.tracks), other.tracks is b.tracks)
+        return (len(model), saved_state, other_state)
 
     def nontrivial(self, model):
         return len(model) >= 1
